@@ -369,7 +369,7 @@ func vfCheckDataFrames(r *vfRun, g *vfGateState, frames []vfFrame) {
 	}
 }
 
-func VF_C04_L1_ReadGating() { vfGating(true, false) }
+func VF_C04_L1_ReadGating()     { vfGating(true, false) }
 func VF_C06_L2_LoadingTrigger() { vfGating(false, false, true) }
 
 // VF_C09_L2_GatingLeak: the gating scenarios (incl. the four-request one in
